@@ -275,6 +275,20 @@ class Run:
 
     def finish(self):
         wall = time.time() - self.t0
+        rec = getattr(self, "replaying", None)
+        if rec is not None:
+            same = [v for v in self.violations if v.get("job") == rec.get("job") and v.get("case") == rec.get("case")]
+            same_job = [v for v in self.violations if v.get("job") == rec.get("job")]
+            if same:
+                log("replay: the recorded case fails again on the current tree: %s" % json.dumps(same[0], ensure_ascii=False)[:1200])
+                print("VIOLATION property=%s replay=%s (reproduced)" % (self.pid, "recorded case"))
+                return 1
+            if same_job:
+                log("replay: the recorded case does not recur, but the same job reports %d other violation(s); first: %s" % (len(same_job), json.dumps(same_job[0], ensure_ascii=False)[:800]))
+                print("VIOLATION property=%s replay=%s (same job, different case)" % (self.pid, "recorded run"))
+                return 1
+            log("replay: the recorded run (tier %s, seed %s) repeated on the current tree: the recorded case does not recur (%d violations in other jobs)" % (self.tier, self.seed, len(self.violations)))
+            return 0
         os.makedirs(os.path.join(ROOT, "evidence"), exist_ok=True)
         os.makedirs(os.path.join(BUILD, "replay"), exist_ok=True)
         self.cov["known_findings_hit"] = {k: v[0] for k, v in self.known_hits.items()}
@@ -335,9 +349,16 @@ def main(argv):
         build_harness()
         gen_tables()
         fn, level = props.PROPS[pid]
-        run = Run(pid, tier, seed, level)
         if replay:
-            return props.replay(run, replay)
+            # a check is a function of (tree, tier, seed): the recorded run is repeated on the current tree and the recorded case looked up among its violations
+            rec = json.load(open(replay))
+            if rec.get("property") != pid:
+                print("replay file belongs to", rec.get("property")); return 2
+            run = Run(pid, rec.get("tier", tier), str(rec.get("seed", seed)), level)
+            run.replaying = rec
+            fn(run)
+            return run.finish()
+        run = Run(pid, tier, seed, level)
         fn(run)
         return run.finish()
     except ToolError as e:
